@@ -2,7 +2,7 @@ SPECIFICATION Spec
 CONSTANTS
   Families = {"normal", "mixnormal", "bernoulli", "weibull"}
   Censorings = {"censored", "observed"}
-  Positions = {"before", "at", "after"}
+  Positions = {"before", "just_before", "at", "just_after", "after"}
   Shapes = {"lt1", "eq1", "gt1", "eq3"}
   Sources = {TRUE, FALSE}
   Outcomes = {"y0", "y1"}
@@ -10,3 +10,4 @@ CONSTANTS
 INVARIANT CensoredOnlySurvival
 INVARIANT Finite
 INVARIANT DerivativeClosed
+INVARIANT CloseIsOrdinary
